@@ -241,12 +241,14 @@ KINDS = [
     {"type": "lenient_parse", "subtype": "duplicate_key", "key": "K", "duplicate_line": 9, "all_lines": [1, 9]},
     {"type": "spec_violation", "subtype": "bare_flow"},
     {"type": "repair_candidate", "subtype": "curly_brace_annotation", "original": "A{b}", "repaired": "A<b>"},
+    {"type": "normalization", "original": '"""', "normalized": '"'},
+    {"type": "normalization", "original": "vs", "normalized": "\u21cc"},
 ]
 
 
 def M_mapping(n: int, k0: int, k1: int, k2: int, line: int, col: int, tool: int) -> int:
     """
-    pre: 0 <= n <= 3 and 0 <= k0 <= 4 and 0 <= k1 <= 4 and 0 <= k2 <= 4 and 1 <= line and 1 <= col and 0 <= tool <= 2
+    pre: 0 <= n <= 3 and 0 <= k0 <= 6 and 0 <= k1 <= 6 and 0 <= k2 <= 6 and 1 <= line and 1 <= col and 0 <= tool <= 2
     post: _ != 0
     """
     # the tools copy / map every receipt exactly once, with its text and position
